@@ -100,16 +100,46 @@ func checkC07(c *Ctx) {
 		}
 		c.Ev.Extra["truncations_enumerated_exhaustively"] = true
 	} else {
+		// quick: every truncation that ends the text INSIDE or right after a token of
+		// the kind EOF-recovery bugs live in (after + - \\ ( " ' / * # @ . : e E u U and
+		// digits followed by a letter), plus a seeded sample of the other offsets
+		interesting := func(b byte) bool { return strings.IndexByte("+-\\(\"'/*#@.:eEuU%!,=<&", b) >= 0 }
+		nInteresting := 0
 		for _, t := range targets {
-			n := 80
+			seen := map[int]bool{}
+			for k := 1; k <= t.size; k++ {
+				if interesting(t.data[k-1]) {
+					seen[k] = true
+				}
+			}
+			// keep the systematic part bounded for big resources
+			var ks []int
+			for k := range seen {
+				ks = append(ks, k)
+			}
+			sort.Ints(ks)
+			if len(ks) > 400 {
+				shuffleInts(rng, ks)
+				ks = ks[:400]
+				sort.Ints(ks)
+			}
+			nInteresting += len(ks)
+			n := 40
 			if t.size < n {
 				n = t.size
 			}
 			for i := 0; i < n; i++ {
 				k := rng.Intn(t.size)
+				if !seen[k] {
+					seen[k] = true
+					ks = append(ks, k)
+				}
+			}
+			for _, k := range ks {
 				mk(t, []Fault{{At: "url:" + t.file, Kind: "trunc", N: k}}, false, fmt.Sprintf("trunc%d", k))
 			}
 		}
+		c.Ev.Extra["truncations_at_token_boundaries"] = nInteresting
 	}
 	// substitutions: sampled (quick: ~25 per resource; thorough: budgeted)
 	nsub := 150
